@@ -128,6 +128,11 @@ func c03MutatedRerender(c C03Case) error {
 	if r1.Panic != "" {
 		return fmt.Errorf("panic: %s; source %s", r1.Panic, q(c.Src))
 	}
+	// the same context object a second time, unchanged: same result (a render that reorders or
+	// edits the caller's data in passing would show here)
+	if r1b := render(e, "main", data); r1b.Panic != "" || (r1b.Err != "") != (r1.Err != "") || r1b.Out != r1.Out {
+		return fmt.Errorf("the same engine, template and context object rendered twice give %v and then %v; source %s", r1, r1b, q(c.Src))
+	}
 	if !c03SwapKey(data) {
 		return nil
 	}
@@ -214,7 +219,8 @@ func dupHashLiteral(t *rapid.T) string {
 }
 
 var c03PrintForms = []string{"{{ V }}", "{{ V|json_encode }}", "{{ [V, V]|join(',') }}", "{% for x in [V] %}{{ x }}{% endfor %}", "{{ V|default('d') }}", "{{ V ~ '' }}", "{{ dump(V) }}",
-	"{{ V|trim }}", "{{ V|upper }}", "{{ V|replace({'1': 'x'}) }}", "{{ V|length }}", "{{ V|e }}", "{{ '%s'|format(V) }}", "{{ V|split(',')|join('/') }}"}
+	"{{ V|trim }}", "{{ V|upper }}", "{{ V|replace({'1': 'x'}) }}", "{{ V|length }}", "{{ V|e }}", "{{ '%s'|format(V) }}", "{{ V|split(',')|join('/') }}",
+	"{{ V|join(',') }}|{{ V|sort|join(',') }}", "{{ V|first }}|{{ V|reverse|join(',') }}", "{% for x in V %}{{ x }};{% endfor %}{% for x in V|sort %}{{ x }};{% endfor %}"}
 
 var phpDate = map[byte]string{'d': "02", 'D': "Mon", 'j': "2", 'l': "Monday", 'F': "January", 'm': "01", 'M': "Jan", 'n': "1", 'Y': "2006", 'y': "06",
 	'a': "pm", 'A': "PM", 'g': "3", 'G': "15", 'h': "03", 'H': "15", 'i': "04", 's': "05"}
